@@ -378,10 +378,13 @@ func (a *app36) readRecords(rd interface{ Read([]byte) (int, error) }, rr *readR
 		if bad != "" {
 			acc = nil
 		}
-		if err != nil {
+		if err != nil && n == 0 {
 			rerr = err
 			break
 		}
+		// an error together with n > 0 concerns the window adjust the Read
+		// tried to send (transport already closed), not the buffered data:
+		// keep reading until the stream itself ends
 		if pr.IntN(5) == 0 {
 			runtime.Gosched()
 		}
